@@ -365,6 +365,35 @@ class Routes:
         G("FractionScalar routes", case, fraction_routes)
 
 
+def _large_arrays(ctx, R, db, aff):
+    """the numpy route on arrays longer than any block a conversion might work in (16 384 / 65 536 items and a tail): every
+    element, the last ones included, is the float conversion of that element"""
+    import numpy as np
+    from barril.units import Array
+
+    for qt, u, v in (("length", "m", "cm"), ("temperature", "degC", "K"), ("pressure", "bar", "psi"), ("volume flow rate", "m3/d", "bbl/d")):
+        if u not in aff or v not in aff:
+            continue
+        for n in (16385, 40000, 70001):
+            vals = np.linspace(-40.0, 60.0, n)
+            case = {"large array": True, "qt": qt, "u": u, "v": v, "items": n}
+            idx = [0, 1, 16383, 16384, n // 2, n - 3, n - 2, n - 1]
+
+            def go():
+                ref = [db.Convert(qt, u, v, float(vals[i])) for i in idx]
+                got = db.Convert(qt, u, v, vals.copy())
+                R.cmp("UnitDatabase.Convert(ndarray of %d items)" % n, [got[i] for i in idx], ref, case, aff[u], aff[v], [float(vals[i]) for i in idx])
+                ga = Array(vals.copy(), u).GetValues(v)
+                R.cmp("Array[ndarray of %d items].GetValues" % n, [ga[i] for i in idx], ref, case, aff[u], aff[v], [float(vals[i]) for i in idx])
+                gc = Array(vals.copy(), u).CreateCopy(unit=v).GetValues()
+                R.cmp("Array[ndarray of %d items].CreateCopy(unit)" % n, [gc[i] for i in idx], ref, case, aff[u], aff[v], [float(vals[i]) for i in idx])
+                ctx.ev()
+                if len(got) != n or len(ga) != n:
+                    R.bad("large array", "length", case, {"got": [len(got), len(ga)]})
+
+            R.guard("large array routes", case, go)
+
+
 def _explicit_database(ctx, R):
     """ConvertToCurrent / ConvertScalarToCurrent take the database to convert with: the answer is that database's
     conversion, also when it is not the one the scalar was created under (here: another table for the same symbols)."""
@@ -501,6 +530,7 @@ def run(ctx):
                     ctx.sample({"db": kind, "category": c, "u": u, "v": v, "xs": xs})
             if kind == "posc" and ctx.shard == 0:
                 _explicit_database(ctx, R)
+                _large_arrays(ctx, R, db, aff)
             if kind == "posc":
                 _derived_own_unit(ctx, R, db, aff, ctx.rng("derived"), 300 if ctx.tier == "quick" else 3000)
             ctx.notes.setdefault("routes_observed", {}).update({k: 1 for k in R.seen_routes})
